@@ -2051,7 +2051,12 @@ class _Random:
         return asarray(self._rs.choice(a2, size, **kw))
 
     def shuffle(self, x):
-        raise ShimMissing("random.shuffle")
+        self.calls.append(('shuffle', len(x)))
+        perm = list(range(len(x)))
+        self._rs.shuffle(perm)
+        vals = [x[i] for i in perm]
+        for i, v in enumerate(vals):
+            x[i] = v
 
     def RandomState(self, seed=None):
         r = _Random()
